@@ -2804,9 +2804,9 @@ impl TryFrom<pb::Transaction> for Transaction {
                 initial_bases,
             })) => {
                 let config_upsert_option = if config_upsert_values.is_empty() {
-                    Some(config_upsert_values)
-                } else {
                     None
+                } else {
+                    Some(config_upsert_values)
                 };
 
                 Operation::Overwrite {
